@@ -236,13 +236,28 @@ fn art(kind: &str, origin: &str, source: &str, settings: &str, cfg: &FrontCfg, e
 /// the front end.
 fn part_a(db: &mut RootDatabase, name: &str, source: &str, settings: &str, cfg: &FrontCfg) -> Result<bool, (String, String)> {
     cfg.apply(db);
-    match front(db, name, source, settings)? {
-        Front::Rejected(_) => Ok(false),
-        Front::Program(p) => {
-            back(&p)?;
-            Ok(true)
+    let r = match front(db, name, source, settings) {
+        Ok(Front::Rejected(_)) => Ok(false),
+        Ok(Front::Program(p)) => back(&p).map(|_| true),
+        Err(e) => Err(e),
+    };
+    // Root-cause class of one known finding, decided causally: a value that can only be
+    // panic-destructed, created on one path before a merge and abandoned there, is accepted by the
+    // borrow checker (every path ends with a panic) but its panic_destruct call is placed after the
+    // merge, where the variable does not exist; with optimisations off Sierra generation panics
+    // 'vN is used before it is introduced'. If the same source with `Drop` instead of
+    // `PanicDestruct` compiles, that is the cause.
+    if let Err((sig, what)) = &r {
+        if sig == "panic@crates/cairo-lang-sierra-generator/src/lifetime.rs:119" && source.contains("derive(PanicDestruct)") {
+            let twin = source.replace("derive(PanicDestruct)", "derive(Drop)");
+            let name2 = format!("{name}_d");
+            let ok = matches!(front(db, &name2, &twin, settings), Ok(Front::Program(p)) if back(&p).is_ok());
+            if ok {
+                return Err((format!("{sig}:panic-destruct-of-value-abandoned-before-a-merge"), what.clone()));
+            }
         }
     }
+    r
 }
 
 impl Prop for C08 {
